@@ -347,6 +347,27 @@ func (g *gen) handOff() {
 	g.p("Definition ho_serve_match_condition : bytes := hex \"%s\". (* %s *)\n", hexOf([]byte(cond)), cond)
 	g.p("Definition ho_serve_awaits_close_after_handoff : bool := %s.\n", hoBool(awaits))
 	g.hoList("ho_serve_yields", hoYields(hi))
+	// getIDTyp: only unqualified id / type attributes count (a `continue` under
+	// a test of attr.Name.Space before the switch on the local name)
+	if gi := hoFunc(sess, "", "getIDTyp"); gi != nil {
+		skips := false
+		ast.Inspect(gi, func(x ast.Node) bool {
+			is0, ok := x.(*ast.IfStmt)
+			if !ok {
+				return true
+			}
+			c := g.hoText(is0.Cond)
+			if (c == `attr.Name.Space != ""` || c == `"" != attr.Name.Space`) && len(is0.Body.List) == 1 {
+				if br, ok := is0.Body.List[0].(*ast.BranchStmt); ok && br.Tok == token.CONTINUE {
+					skips = true
+				}
+			}
+			return true
+		})
+		g.p("Definition ho_getidtyp_skips_qualified : bool := %s.\n", hoBool(skips))
+	} else {
+		g.errs = append(g.errs, "session.go: getIDTyp not found")
+	}
 	cl := hoFunc(sess, "iqResponder", "Close")
 	g.p("Definition ho_responder_close_closes_chan : bool := %s.\n", hoBool(cl != nil && hoCountCalls(cl, "close") == 1))
 
@@ -474,6 +495,36 @@ func (g *gen) handOff() {
 		g.p("Definition ho_ibb_serve_close_blocking_write_locks : nat := %d.\n", blocking)
 		g.p("Definition ho_ibb_serve_close_try_write_locks : nat := %d.\n", try)
 		g.p("Definition ho_ibb_serve_close_sets_abort : bool := %s.\n", hoBool(bytes.Contains([]byte(g.hoText(cn)), []byte("aborted.Store(true)"))))
+	}
+	if cn != nil {
+		g.p("Definition ho_ibb_serve_close_returns_error : bool := %s.\n", hoBool(cn.Type.Results != nil && len(cn.Type.Results.List) > 0))
+	}
+	// Listener.Expect: on ctx.Done it removes the entry under its key only if
+	// that entry is still its own (its channel)
+	if il := g.parse("ibb/listen.go"); il != nil {
+		ex := hoFunc(il, "Listener", "Expect")
+		owner, deletes := false, 0
+		if ex != nil {
+			ast.Inspect(ex, func(x ast.Node) bool {
+				is0, ok := x.(*ast.IfStmt)
+				if !ok {
+					return true
+				}
+				body := []byte(g.hoText(is0.Body))
+				if bytes.Contains(body, []byte("delete(l.expected, key)")) {
+					deletes++
+					cond := []byte(g.hoText(is0.Cond))
+					owner = bytes.Contains(cond, []byte(".c == e.c")) || bytes.Contains(cond, []byte("e.c == "))
+				}
+				return true
+			})
+		} else {
+			g.errs = append(g.errs, "ibb/listen.go: Listener.Expect not found")
+		}
+		g.p("Definition ho_ibb_expect_cleanup_deletes : nat := %d.\n", deletes)
+		g.p("Definition ho_ibb_expect_cleanup_checks_owner : bool := %s.\n", hoBool(owner))
+		ho := hoFunc(ib, "", "handleOpen")
+		g.p("Definition ho_ibb_open_offer_gives_up_on_done : bool := %s.\n", hoBool(ho != nil && bytes.Contains([]byte(g.hoText(ho)), []byte("case <-expect.done:"))))
 	}
 	sw := hoFunc(ic, "stanzaWriter", "Write")
 	g.p("Definition ho_ibb_writer_tests_abort_first : bool := %s.\n", hoBool(sw != nil && len(sw.Body.List) > 0 &&
